@@ -221,9 +221,23 @@ class ProblemCall(Unit):
                 return x_full
             return OpaquePoint(getattr(x, "eid", None), tags=("inbox", "full"))
 
-        def obj(xf):
-            c.log.append(("obj", xf))
-            return fnew
+        fn_sb = SB(z3.Bool(c.fresh_name("fun_is_none")))
+        c.named["fun_is_none"] = fn_sb
+        fun_is_none = bool(fn_sb)
+
+        class Obj:
+            """contract of ObjectiveFunction.__call__ (unit problem.objective_call): counts only real objective calls"""
+            def __init__(self):
+                self.n_eval = SI(z3.Int(c.fresh_name("obj_n_eval")))
+
+            def __call__(self, xf):
+                c.log.append(("obj", xf))
+                if not fun_is_none:
+                    self.n_eval = self.n_eval + 1
+                return fnew
+        obj = Obj()
+        pb._n_eval = SI(nev0)      # the evaluation counter of Problem (|H| by the object invariant)
+        c.assume(obj.n_eval.t == z3.If(z3.BoolVal(fun_is_none), 0, nev0))
 
         def nonlinear(xf):
             c.log.append(("con", xf))
@@ -270,6 +284,10 @@ class ProblemCall(Unit):
         from cobyqa.utils import CallbackSuccess
         kind, res = call_expecting(c, "C08.problem_call", lambda: pb(x_in, penalty), (CallbackSuccess,), props=["C08"])
         F, M, X = pb._fun_filter, pb._maxcv_filter, pb._x_filter
+        # ---- evaluation counter (C05.O1): exactly one more, whatever the objective is (also fun=None) ----------------
+        n_after = type(pb).n_eval.fget(pb)
+        c.oblige("C05.problem_call.post.n_eval_incremented", it(n_after) == nev0 + 1, props=["C05", "C07"],
+                 note="Problem.n_eval must count every evaluated point, also for feasibility problems (fun=None)")
         # ---- effects (C06 / C20) --------------------------------------------------------------------------
         ev = [e[0] for e in c.log]
         user = [e for e in c.log if e[0] in ("obj", "con", "callback")]
